@@ -241,6 +241,10 @@ func runC15(p params) error {
 				api := []string{"writeto", "write"}[(si+k+pm)%2]
 				dir := []string{"c2s", "s2c"}[(si+pm/7+k)%2]
 				c15AddCase(out, api, c15Input{PMTU: pm, Suite: su, Sizes: ss, API: api, Dir: dir})
+				if mx >= 16384 { // records of exactly 16384 bytes are possible: exercise the other API (the stream-like Read path) too
+					other := map[string]string{"writeto": "write", "write": "writeto"}[api]
+					c15AddCase(out, other, c15Input{PMTU: pm, Suite: su, Sizes: []int{16383, 16384, 16385, 40000, 1}, API: other, Dir: dir})
+				}
 			}
 		}
 	}
